@@ -29,6 +29,10 @@ def run(P, R, L):
     K.pair12_file_level_pairs(P, R, L)
     R.clause("OWN-8", "file numbers are unique: who writes the counter, and in which direction")
     K.own8_file_numbers(P, R, L)
+    R.clause("ROLE-4", "`no file number appears twice ... across close and reopen`: the next-file-number counter (and the other recovered counters) is recorded in every version edit and restored from the NEWEST manifest record that carries it")
+    R.once(K.role4_counters, P, R, L)
+    from . import round12
+    R.once(round12.role4_last_record_wins, P, R, L)
     R.clause("GRD-16", "a compaction is done as a trivial move only when it has a single input file and no overlapping parent-level file")
     K.grd16_trivial_move(P, R, L)
     R.clause("PAIR-9", "compaction inputs are expanded by their boundary files before the key range that selects the parent-level inputs is computed "
